@@ -252,6 +252,13 @@ def run(ctx):
     ctx.mc("mc-log2cover", SPEC, "Log2Table.tla", ccfg, workers=2, timeout=600, required_actions=LOG2_ACTIONS)
     mc_thread = threading.Thread(target=mc_job)
     mc_thread.start()
+    # the Karatsuba square root (root.rs) at word level: every normalised operand of 4, 6, 8 two-bit words; progressions and
+    # the neighbours of perfect squares for 10..14 words; three-bit words in the thorough tier
+    sq = [("w2", 2, "{2, 3, 4}", 1), ("w2long", 2, "{5, 6, 7}", ctx.pick(4099, 257))] + ([] if ctx.quick else [("w3", 3, "{2, 3}", 1)])
+    for nm, w, hl, st in sq:
+        scfg = fw.write_cfg(ctx.path("MC_SqrtAlg_%s.cfg" % nm), invariants=["SqrtOK"], constants={"W": w, "HalfLens": hl, "Stride": st})
+        ctx.mc("mc-sqrtalg-" + nm, SPEC, "SqrtAlg.tla", scfg, workers=4, timeout=2400)
+    ctx.scope["sqrt_alg_scopes"] = [list(x) for x in sq]
 
     # 2. spec -> impl: the partition enumerated by TLC
     step16 = ctx.pick(32, 1)
